@@ -420,14 +420,52 @@ http_cancel(int h)
 	sock_addr_freelist(h_http_sas[h]);
 }
 
+struct tqrec_mirror { struct timeval tv; size_t rc; void * ptr; };
+
+/*
+ * Registrations that are still there although every object has been released ("a failed registration leaves
+ * nothing registered" is violated): cancel them, so that the next case starts clean, and count them.
+ */
+static int
+force_clean(void)
+{
+	struct eventq * q;
+	size_t i;
+	int p, n = 0;
+
+	for (i = 0; S != NULL && i < socketlist_getsize(S); i++) {
+		if (socketlist_get(S, i)->reader != NULL) {
+			LIB((void)events_network_cancel((int)i, EVENTS_NETWORK_OP_READ));
+			n++;
+		}
+		if (socketlist_get(S, i)->writer != NULL) {
+			LIB((void)events_network_cancel((int)i, EVENTS_NETWORK_OP_WRITE));
+			n++;
+		}
+	}
+	for (p = 0; p < 32; p++)
+		while ((q = TAILQ_FIRST(&heads[p])) != NULL) {
+			LIB(events_immediate_cancel(q));
+			n++;
+		}
+	while (Q != NULL && ((struct ptrheap *)(*(void **)Q))->nelems > 0) {
+		struct tqrec_mirror * tr = *ptrlist_get(((struct ptrheap *)(*(void **)Q))->elems, 0);
+
+		LIB(events_timer_cancel(tr->ptr));
+		n++;
+	}
+	return (n);
+}
+
 /*
  * Release every object of the start/teardown ops with its normal call (fixed order: the model does the
- * same), run the library's exit handlers, and put the pools back into their initial state.
+ * same), run the library's exit handlers, and put the pools back into their initial state.  Returns the
+ * number of registrations that were left behind.
  */
-static void
+static int
 release_all(void)
 {
-	int h;
+	int h, left;
 
 	for (h = 0; h < MAXOBJ; h++)
 		if (h_http[h] != NULL)
@@ -464,6 +502,7 @@ release_all(void)
 			h_nbw_reserved[h] = 0;
 		}
 	drain_listener();
+	left = force_clean();
 	/* the library's own exit handlers: pools, events_timer_shutdown, events_network_shutdown */
 	for (h = nhandlers - 1; h >= 0; h--)
 		LIB((handlers[h])());
@@ -472,6 +511,7 @@ release_all(void)
 	pool_reset(&mpool_network_read_cookie_rec, mpool_network_read_cookie_static, 16);
 	pool_reset(&mpool_network_write_cookie_rec, mpool_network_write_cookie_static, 16);
 	minq = 32;
+	return (left);
 }
 
 static int
@@ -722,15 +762,18 @@ main(void)
 		if (hc_is("case", 1)) {
 			/* a case may stop anywhere (the shrinker removes ops): release what it left behind */
 			hw_mode = 0;
-			release_all();
+			(void)release_all();
 			hw_reset();
 			printf("case %s", hc_tok[1]);
 		} else if (hw_schedule_op(hc_tok, hc_ntok)) {
 			printf("ok");
 		} else if (hc_is("end", 0)) {
+			int left;
+
 			hw_mode = 0;
-			release_all();
-			printf("end live=%ld leaked=0 | n=%llu", hw_live, (unsigned long long)hw_n);
+			left = release_all();
+			/* `leaked`: registrations still there after every object was released with its normal call */
+			printf("end live=%ld leaked=%d | n=%llu", hw_live, left, (unsigned long long)hw_n);
 		} else if (fine_op()) {
 			;
 		} else if (hc_is("nw", 3) || hc_is("nr", 3)) {
@@ -1031,7 +1074,7 @@ main(void)
 			fflush(stdout);
 	}
 	hw_mode = 0;
-	release_all();
+	(void)release_all();
 	unlink(goodpath);
 	rmdir(tmpdir);
 	free(hc_line);
